@@ -110,11 +110,9 @@ def record_prioritisation(full):
     try:
         # the complete step (virtual worlds, delegation, battery support, surplus pass) is tied to its model as well
         import steptie
-        with steptie.tie_for(full) as tie:
-            r = scen.run_real(full, timeout_s=90)
-        if not r.get("timeout"):
-            lines += tie.lines
-            impl += tie.impl
+        r, tl, ti = steptie.run_with_tie(full, lambda: scen.run_real(full, timeout_s=90))
+        lines += tl
+        impl += ti
     finally:
         dmod.Distributed.step = orig_step
         del dmod.sorted
